@@ -13,7 +13,8 @@ RulesA == [global |-> [EVENT |-> << <<60, 3>>, <<1, 2>> >>],
 RulesB == [ip |-> [EVENT |-> << <<60, 2>>, <<1, 1>> >>]]
 RulesC == [global |-> [EVENT |-> << <<60, 2>> >>, REQ |-> << <<1, 1>> >>]]
           @@ ("2.2.2.2" :> [EVENT |-> << <<1, 2>> >>, REQ |-> << <<3600, 1>> >>]) @@ ("3.3.3.3" :> [REQ |-> << <<3600, -1>> >>])
-RulesDef == IF Which = "A" THEN RulesA ELSE IF Which = "B" THEN RulesB ELSE RulesC
+RulesD == [ip |-> [EVENT |-> << <<60, 1>>, <<1, 3>> >>], global |-> [REQ |-> << <<3600, 3>>, <<60, 2>>, <<1, 4>> >>]]
+RulesDef == IF Which = "A" THEN RulesA ELSE IF Which = "B" THEN RulesB ELSE IF Which = "C" THEN RulesC ELSE RulesD
 
 INSTANCE RateLimiter WITH Addrs <- {"1.1.1.1", "2.2.2.2", "3.3.3.3"}, Cmds <- {"EVENT", "REQ"}, Rules <- RulesDef,
                           Deltas <- {0, 1, 30, 61}
